@@ -57,6 +57,7 @@ type Engine struct {
 	strCodes     map[string]int
 	initDone     map[*ssa.Package]bool
 	sess         *smt.Session
+	durParts     map[*smt.Term][2]*smt.Term // durations produced by the virtual clock: (seconds, milliseconds)
 	Concrete     *ConcreteInputs // when set: nondets and choices come from this table (concolic replay)
 }
 
@@ -140,6 +141,7 @@ func Load(cfg Config) (*Engine, error) {
 		pruneCache: map[int]smt.Result{},
 		strCodes:   map[string]int{},
 		initDone:   map[*ssa.Package]bool{},
+		durParts:   map[*smt.Term][2]*smt.Term{},
 	}
 	for _, p := range prog.AllPackages() {
 		e.Pkgs[p.Pkg.Path()] = p
